@@ -46,8 +46,24 @@ def v2_rule(f, rep):
             'compatible_features': (0, 0), 'autoclear_features': (0, 0), 'compression_type': (0, 0)}
     bad = {}
     n = 0
+    raw = c14.adt_fields(f, c14.RAW)
+    v3only = {raw[k][0]: k for k in want}
+    judged = {}
     for cb in (9, 12, 16, 21):
-        ai, frame, oks, hits = c14.parser_run(f, (cb, cb), {'version': (2, 2)})
+        def on_switch(ai_, st, frame_, b_, bi, d):
+            # a decision of the parser that looks at raw bytes 72.. of a version 2 header
+            if b_.path != c14.FROM_BUF:
+                return
+            def israw(v):
+                return v[0] == 'u' and len(v) > 1 and isinstance(v[1], tuple) and len(v[1]) == 3 and v[1][0] == 'proj' \
+                    and len(v[1][2]) == 1 and v[1][2][0][0] == 'f' and v[1][2][0][1] in v3only \
+                    and isinstance(v[1][1], tuple) and v[1][1][0] == 'u' and isinstance(v[1][1][1], tuple) and v[1][1][1][:1] == ('call',)
+            from ..absint import mentions
+            hit = []
+            mentions(d, lambda v: hit.append(v3only[v[1][2][0][1]]) or False if israw(v) else False)
+            for h in hit:
+                judged[h] = b_.where(bi)
+        ai, frame, oks, hits = c14.parser_run(f, (cb, cb), {'version': (2, 2)}, switch_hook=on_switch)
         if not hits:
             raise AnalysisError('deserialize anchor missing in from_buf')
         for bi, (st, hv) in oks.items():
@@ -60,6 +76,14 @@ def v2_rule(f, rep):
     rep.ob('C09.1', 'a version 2 header reaches Ok(header)', ok, '%d Ok exits over 4 cluster sizes' % n)
     if not ok:
         rep.violation('C09.1', 'C09.1:no-ok-exit', 'src/meta/header.rs', 'from_buf has no Ok exit for a version 2 header: valid version 2 images are refused')
+    for name in sorted(set(want)):
+        ok = name not in judged
+        rep.ob('C09.1', 'version 2: no decision on the raw bytes of %s' % name, ok,
+               'never inspected before the default is applied' if ok else 'a decision at %s depends on them' % judged.get(name))
+        if not ok:
+            rep.violation('C09.1', 'C09.1:judged:%s' % name, judged[name],
+                          'for a version 2 image from_buf takes a decision on the raw bytes of %s: in version 2 those bytes belong to '
+                          'the header extensions, a valid image whose extension data looks like a bad value is refused' % name)
     for name in want:
         ok = name not in bad
         rep.ob('C09.1', 'version 2 default of %s' % name, ok, 'equals %d at every Ok exit' % want[name][0] if ok else 'can be %s' % fmt_itv(bad[name]))
@@ -177,33 +201,73 @@ def geometry_rule(f, rep):
     rep.floor('geometry fields checked', len(checked), 12)
 
 
-def compressed_read_rule(f, rep):
+def compressed_read_rule(f, rep, rid='C09.5'):
+    """(a) the slice of the bounce buffer handed to inflate lies inside the buffer that was read;
+    (b) it starts where the compressed data starts: read offset + slice start = byte offset of the data"""
+    from ..align import AlignInt, BS
     bodies = [b for b in f.body_list if b.is_coroutine and b.path.endswith('do_read_compressed::{closure#0}')]
     if len(bodies) != 1:
         raise AnalysisError('do_read_compressed not found')
     b = bodies[0]
-    ai = AbsInt(f)
+    ai = AlignInt(f)
+    ups = f.types[b.locals[1]].get('u') or []
 
-    def on_stmt(ai_, st, frame, b_, bi, si, s, v):
-        rv = s['rv']
-        if rv['k'] == 'use' and rv['ops'][0]['k'] in ('copy', 'move'):
-            pr = rv['ops'][0]['pl']['p']
-            if pr and pr[-1]['k'] == 'field' and pr[-1].get('n') == 'block_size_shift':
-                ai_.refine(st, v, 9, 12)
-    ai.stmt_hook = on_stmt
-    ai.analyze(b.path)
+    def setup(ai_, st, frame, b_):
+        st.le.update(ai_.base_state().le)
+        for k, tid in enumerate(ups):
+            st.env[(('L', frame, 1), (('f', k),))] = ('u', ('param', b.path, k), ai_.tname(tid))
+    ai.analyze(b.path, setup)
     n = 0
+    slices = []
     for key, o in sorted(ai.obl.items(), key=lambda kv: kv[0][1]):
         if o.fn != b.path or o.kind != 'index' or o.cond is None:
             continue
-        base = o.cond
+        base = o.cond[0]
         if base[0] != 'rawslice':
             continue
         n += 1
-        rep.ob('C09.5', 'compressed data slice of the bounce buffer at %s' % o.where, o.ok,
-               'pad..pad+compressed_length lies inside the aligned buffer' if o.ok else o.detail)
+        slices.append(o)
+        rep.ob(rid, 'compressed data slice of the bounce buffer at %s' % o.where, o.ok,
+               'pad..pad+compressed_length lies inside the aligned buffer' if o.ok else o.detail[:200])
         if not o.ok:
-            rep.violation('C09.5', 'C09.5:do_read_compressed:bounce', o.where,
-                          'the block-aligned host read of a compressed cluster does not cover the compressed bytes for some '
-                          'block size: %s' % o.detail[:300])
+            rep.violation(rid, '%s:do_read_compressed:bounce' % rid, o.where,
+                          'the slice of the bounce buffer that is inflated can lie outside the bytes that were read (short read, or '
+                          'the block-aligned read does not cover the compressed bytes for some block size): %s' % o.detail[:300])
     rep.floor('bounce buffer slices in do_read_compressed', n, 1)
+    reads = [r for r in ai.async_calls if r[2].endswith('::call_read')]
+    if not reads or not slices:
+        raise AnalysisError('do_read_compressed: bounce read / slice not found')
+    aligned_off = reads[-1][4][1]
+    base, start, end, st = slices[0].cond
+    x = aligned_off
+    while x[0] in ('wrap', 'cast'):
+        x = x[1]
+    ok = False
+    why = 'the read offset is not a rounded-down byte offset'
+    if x[0] == 'bin' and x[1] == 'BitAnd':
+        for X, m in ((x[2], x[3]), (x[3], x[2])):
+            if not (m[0] == 'bin' and m[1] == 'Sub' and m[2][0] == 'c'):
+                continue
+            lo = ai.low_ones(st, m[3])
+            if lo is None:
+                continue
+            s0 = start
+            while s0[0] in ('wrap', 'cast'):
+                s0 = s0[1]
+            if s0 == ('bin', 'Sub', X, aligned_off) or (s0[0] == 'bin' and s0[1] == 'Sub' and ai.strip(st, s0[2]) == ai.strip(st, X)
+                                                      and ai.strip(st, s0[3]) == ai.strip(st, aligned_off)):
+                ok, why = True, 'slice start = byte offset - read offset'
+            elif s0[0] == 'bin' and s0[1] == 'BitAnd':
+                for Y, m2 in ((s0[2], s0[3]), (s0[3], s0[2])):
+                    l2 = ai.low_ones(st, m2)
+                    if l2 is not None and ai.strip(st, Y) == ai.strip(st, X):
+                        if ai.prove_le(st, l2, lo) and ai.prove_le(st, lo, l2):
+                            ok, why = True, 'slice start = byte offset masked with the block size'
+                        else:
+                            why = 'slice start keeps the low %s bits but the read was rounded down to 2^%s' % (ai.show(st, l2)[:40], ai.show(st, lo)[:40])
+            else:
+                why = 'slice start %s is not derived from the byte offset and the read offset' % ai.show(st, start)[:120]
+    rep.ob(rid, 'start of the compressed data inside the bounce buffer', ok, why)
+    if not ok:
+        rep.violation(rid, '%s:do_read_compressed:start' % rid, slices[0].where,
+                      'the compressed stream is taken from the wrong position of the bounce buffer for some block size: %s' % why)
